@@ -282,8 +282,11 @@ def desugar_combinators(m, prog=None):
     return m
 
 
+LOOP_COMBINATORS = ("std::iter::Iterator::for_each", "std::iter::Iterator::find_map")
+
+
 def has_for_each(m):
-    return any(b["term"]["k"] == "call" and (b["term"].get("callee") or {}).get("path") == "std::iter::Iterator::for_each" for b in m["blocks"])
+    return any(b["term"]["k"] == "call" and (b["term"].get("callee") or {}).get("path") in LOOP_COMBINATORS for b in m["blocks"])
 
 
 def desugar_for_each(m, prog):
@@ -306,8 +309,11 @@ def desugar_for_each(m, prog):
     for bi in range(n0):
         b = m["blocks"][bi]
         t = b["term"]
-        if b.get("cleanup") or t["k"] != "call" or (t.get("callee") or {}).get("path") != "std::iter::Iterator::for_each" or t.get("target") is None \
+        if b.get("cleanup") or t["k"] != "call" or (t.get("callee") or {}).get("path") not in LOOP_COMBINATORS or t.get("target") is None \
                 or len(t["args"]) != 2 or not plain(t["args"][0]) or not plain(t["args"][1]):
+            continue
+        is_find_map = t["callee"]["path"].endswith("::find_map")
+        if is_find_map and t["dest"]["p"]:
             continue
         it_op, clo_op = t["args"]
         ck = cdefs.get(clo_op["place"]["l"])
@@ -320,7 +326,7 @@ def desugar_for_each(m, prog):
         loc = t.get("loc", {"file": "", "line": None})
         srcs = [("iter", it_op)]
         dc = defcall.get(it_op["place"]["l"], [])
-        if len(dc) == 1:
+        if len(dc) == 1 and not is_find_map:
             ct = m["blocks"][dc[0]]["term"]
             if (ct.get("callee") or {}).get("path") == "std::iter::Iterator::chain" and len(ct["args"]) == 2 and plain(ct["args"][0]) and plain(ct["args"][1]) \
                     and ct.get("target") is not None:
@@ -336,15 +342,55 @@ def desugar_for_each(m, prog):
             m["locals"].append({"ty": ty, "mut": True})
             return len(m["locals"]) - 1
 
-        def closure_call(arg_op, target):
+        ret_ty = cm["locals"][0]["ty"]
+
+        def closure_call(arg_op, target, dest_local=None):
             l_e = new_local(envty)
-            l_u = new_local("()")
+            l_u = new_local("()") if dest_local is None else dest_local
             stmts = [{"k": "assign", "place": {"l": l_e, "p": [], "ty": envty},
                       "rv": {"k": "ref", "mut": envty.startswith("&mut "), "place": {"l": clo_op["place"]["l"], "p": [], "ty": clo_op["place"]["ty"]}}, "loc": loc}]
             callee = {"path": ck, "full": ck, "local": True, "name": "{closure}", "substs": [], "rkind": "item", "resolved": ck, "rlocal": True, "synth": True}
             term = {"k": "call", "callee": callee, "args": [{"k": "move", "place": {"l": l_e, "p": [], "ty": envty}}, arg_op],
-                    "dest": {"l": l_u, "p": [], "ty": "()"}, "target": target, "unwind": None, "loc": loc}
+                    "dest": {"l": l_u, "p": [], "ty": "()" if dest_local is None else ret_ty}, "target": target, "unwind": None, "loc": loc}
             return stmts, term
+        if is_find_map:
+            # loop { match iter.next() { None => break None, Some(x) => if let Some(r) = closure(x) { break Some(r) } } }   (std's definition)
+            if not ret_ty.startswith("std::option::Option<"):
+                continue
+            op = it_op
+            ity = op["place"]["ty"]
+            oty = "std::option::Option<%s>" % item_ty
+            byref = ity.startswith("&mut ")          # find_map takes `&mut self`: the operand is already the reference next() wants
+            nty = ity[5:] if byref else ity
+            l_it, l_r, l_n, l_d, l_x, l_res, l_d2 = (new_local(ity), new_local("&mut " + nty), new_local(oty), new_local("isize"), new_local(item_ty),
+                                                      new_local(ret_ty), new_local("isize"))
+            h = len(m["blocks"])
+            dest = t["dest"]
+            entry = {"stmts": [{"k": "assign", "place": {"l": l_it, "p": [], "ty": ity}, "rv": {"k": "use", "op": op}, "loc": loc}],
+                     "term": {"k": "goto", "target": h + 1}}
+            reborrow = ({"k": "use", "op": {"k": "copy", "place": {"l": l_it, "p": [], "ty": ity}}} if byref
+                        else {"k": "ref", "mut": True, "place": {"l": l_it, "p": [], "ty": ity}})
+            head = {"stmts": [{"k": "assign", "place": {"l": l_r, "p": [], "ty": "&mut " + nty}, "rv": reborrow, "loc": loc}],
+                    "term": {"k": "call", "callee": {"path": "std::iter::Iterator::next", "full": "<%s as std::iter::Iterator>::next" % nty, "local": False, "name": "next",
+                                                     "substs": [nty], "trait": "std::iter::Iterator", "self_ty": nty, "rkind": "item",
+                                                     "resolved": "<%s as std::iter::Iterator>::next" % nty, "rlocal": False},
+                             "args": [{"k": "move", "place": {"l": l_r, "p": [], "ty": "&mut " + nty}}], "dest": {"l": l_n, "p": [], "ty": oty},
+                             "target": h + 2, "unwind": None, "loc": loc}}
+            test = {"stmts": [{"k": "assign", "place": {"l": l_d, "p": [], "ty": "isize"}, "rv": {"k": "discr", "place": {"l": l_n, "p": [], "ty": oty}}, "loc": loc}],
+                    "term": {"k": "switch", "discr": {"k": "move", "place": {"l": l_d, "p": [], "ty": "isize"}}, "discr_ty": "isize", "targets": [[0, h + 5]], "otherwise": h + 3, "loc": loc}}
+            stmts, term = closure_call({"k": "move", "place": {"l": l_x, "p": [], "ty": item_ty}}, h + 4, l_res)
+            bodyb = {"stmts": [{"k": "assign", "place": {"l": l_x, "p": [], "ty": item_ty},
+                                "rv": {"k": "use", "op": {"k": "move", "place": {"l": l_n, "p": [{"dc": 1, "n": "Some"}, {"f": 0, "n": "0"}], "ty": item_ty}}}, "loc": loc}] + stmts,
+                     "term": term}
+            test2 = {"stmts": [{"k": "assign", "place": {"l": l_d2, "p": [], "ty": "isize"}, "rv": {"k": "discr", "place": {"l": l_res, "p": [], "ty": ret_ty}}, "loc": loc}],
+                     "term": {"k": "switch", "discr": {"k": "move", "place": {"l": l_d2, "p": [], "ty": "isize"}}, "discr_ty": "isize", "targets": [[0, h + 1]], "otherwise": h + 6, "loc": loc}}
+            none_ = {"stmts": [{"k": "assign", "place": dest, "rv": {"k": "aggregate", "agg": "adt", "adt": "std::option::Option", "variant": "None", "vidx": 0, "fields": [], "ops": []}, "loc": loc}],
+                     "term": {"k": "goto", "target": t["target"]}}
+            some_ = {"stmts": [{"k": "assign", "place": dest, "rv": {"k": "use", "op": {"k": "move", "place": {"l": l_res, "p": [], "ty": ret_ty}}}, "loc": loc}],
+                     "term": {"k": "goto", "target": t["target"]}}
+            m["blocks"].extend([entry, head, test, bodyb, test2, none_, some_])
+            b["term"] = {"k": "goto", "target": h, "loc": loc}
+            continue
         # build from the last source backwards so that each knows where to continue
         nxt = t["target"]
         for kind, op in reversed(srcs):
@@ -458,7 +504,7 @@ def inline_mir(prog, key, stop, maxdepth=4, _stack=(), max_blocks=6000, max_call
                 nb["stmts"].append({"k": "assign", "place": dest, "rv": {"k": "use", "op": {"k": "move", "place": {"l": off_l, "p": [], "ty": gm["locals"][0]["ty"]}}},
                                     "loc": nt.get("loc", t.get("loc", {"line": None})), "inl": g})
                 nb["term"] = {"k": "goto", "target": cont} if cont is not None else {"k": "unreachable"}
-            nb["inl"] = g
+            nb.setdefault("inl", g)          # a block spliced in through g keeps the function it was written in
         m["blocks"].extend(new_blocks)
         for d in gm.get("debug", []):
             m["debug"].append(_rename(d, off_l, off_b, off_p))
